@@ -754,6 +754,20 @@ func (e *enc) specCall(env *specEnv, n *SCall) (tval, error) {
 			return tval{}, fmt.Errorf("NVisited() is only available in invariants of a loop that ranges over a map")
 		}
 		return tval{fmt.Sprintf("(Card_%s %s)", env.visitedSort, env.visited), intTy, "Int"}, nil
+	case "IsKind":
+		// IsKind(n, "XContext"): the node is a rule context of that generated type ("TerminalNodeImpl" for a token)
+		if len(n.Args) != 2 {
+			return tval{}, fmt.Errorf("IsKind(node, \"ContextType\")")
+		}
+		nv, err := e.specX(env, n.Args[0])
+		if err != nil {
+			return tval{}, err
+		}
+		lit, ok := n.Args[1].(*SStr)
+		if !ok {
+			return tval{}, fmt.Errorf("IsKind needs a literal type name")
+		}
+		return bl(fmt.Sprintf("(and (not (= %s 0)) (= (%s %s) %d))", nv.t, e.fKind(), nv.t, e.kindTag(lit.V)))
 	case "Child", "ChildN", "Count", "Kid", "NKids", "Parent":
 		// tree structure in specs: Child(n, "sym") first child produced by grammar symbol sym, ChildN(n, "sym", i), Count(n, "sym"),
 		// Kid(n, i) the i-th child, NKids(n), Parent(n)
